@@ -4,6 +4,7 @@ import (
 	"fmt"
 	"math/rand"
 	"reflect"
+	"strings"
 
 	am "github.com/hashicorp/go-argmapper"
 )
@@ -94,6 +95,9 @@ func runC15(c *CaseCtx) (res CaseResult) {
 	if c.Idx%80 == 31 {
 		return runC15SamePrinting(c, r)
 	}
+	if c.Idx%27 == 11 {
+		return runC15Partial(c, r)
+	}
 	det := map[string]interface{}{}
 	defer func() {
 		if p := recover(); p != nil {
@@ -133,6 +137,10 @@ func runC15(c *CaseCtx) (res CaseResult) {
 		if l.Name != "" {
 			if p := vs.Named(l.Name); p == nil || p.Type != types[l.Type] || p.Subtype != l.Sub {
 				res.violate("C15", "named-lookup", fmt.Sprintf("Named(%q) does not find %v", l.Name, l), det)
+			} else if up := strings.ToUpper(l.Name); vs.Named(up) != p {
+				// names are case insensitive: whatever the spelling, the
+				// lookup yields the one value of that name
+				res.violate("C15", "named-lookup-casing", fmt.Sprintf("Named(%q) finds the value, Named(%q) does not", l.Name, up), det)
 			}
 		} else if typedCount[l.Type] == 1 {
 			if p := vs.Typed(types[l.Type]); p == nil || p.Name != "" || p.Subtype != l.Sub {
